@@ -416,7 +416,15 @@ async def run_tasks(
 
     # If the operator is intact, but one of the root tasks has exited (successfully or not),
     # cancel all the remaining root tasks, and gracefully exit other spawned sub-tasks.
-    root_cancelled, _ = await aiotasks.stop(root_pending, title="Root", logger=logger)
+    # If the operator is cancelled while stopping (e.g. a stop-flag first, a cancellation a bit later),
+    # do not abandon the tasks running: wait for them as if the operator were cancelled initially.
+    try:
+        root_cancelled, _ = await aiotasks.stop(root_pending, title="Root", logger=logger)
+    except asyncio.CancelledError:
+        await aiotasks.stop(root_tasks, title="Root", logger=logger, cancelled=True, interval=10)
+        hung_tasks = await aiotasks.all_tasks(ignored=ignored)
+        await aiotasks.stop(hung_tasks, title="Hung", logger=logger, cancelled=True, interval=1)
+        raise
 
     # After the root tasks are all gone, cancel any spawned sub-tasks (e.g. handlers).
     # If the operator is cancelled, propagate the cancellation to all the sub-tasks.
